@@ -6,6 +6,13 @@ from ..base import BaseCheck
 from lapy import TriaMesh
 
 
+def level_arg(case, levels):
+    """the `level` argument as handed to the implementation: float / Python int / float array / integer array"""
+    if case.get("level_dtype") == "int":
+        return int(levels[0]) if len(levels) == 1 else np.array([int(x) for x in levels], dtype=np.int64)
+    return levels[0] if len(levels) == 1 else np.array(levels)
+
+
 def pick_level(rng, f):
     """a level strictly between two consecutive distinct vertex values"""
     u = np.unique(f)
@@ -28,6 +35,25 @@ def reference_segments(v, t, f, level):
         if len(pts) == 2:
             segs.append((k, pts[0], pts[1]))
     return segs
+
+
+def tri_distance(p, tri):
+    """distance of the point p to the (closed) triangle tri (3x3)"""
+    a, b, c = tri
+    n = np.cross(b - a, c - a)
+    nn = np.dot(n, n)
+    if nn > 0:
+        q = p - np.dot(p - a, n) / nn * n
+        A = np.vstack([np.array([a, b, c]).T, np.ones(3)])
+        lam, *_ = np.linalg.lstsq(A, np.append(q, 1.0), rcond=None)
+        if np.min(lam) >= 0:
+            return float(np.linalg.norm(p - q))
+    best = np.inf
+    for x, y in ((a, b), (b, c), (c, a)):
+        d = y - x
+        s_ = np.clip(np.dot(p - x, d) / max(np.dot(d, d), 1e-300), 0.0, 1.0)
+        best = min(best, float(np.linalg.norm(p - (x + s_ * d))))
+    return best
 
 
 def is_single_open_curve(segs):
@@ -81,29 +107,37 @@ class Check(BaseCheck):
                 if np.any(f == lv) or not (u[0] < lv < u[-1]):
                     continue
             levels = [lv] if rng.random() < 0.6 else [lv, pick_level(rng, f), pick_level(rng, f)]
-            yield dict(v=v, t=t, f=f, levels=levels, n_points=int(rng.choice([0, 0, 5, 12])), name=c["name"], near_vertex=bool(near))
+            ldt = "float"
+            if not near and rng.random() < 0.3:
+                # integer-typed levels (Python int / integer array): rescale f so that integers lie strictly between vertex values
+                f = f * (6.0 / max(np.ptp(f), 1e-30))
+                ks = [k for k in range(int(np.ceil(f.min())) , int(np.floor(f.max())) + 1) if f.min() < k < f.max() and not np.any(f == k)]
+                if ks:
+                    levels = [float(ks[int(rng.integers(0, len(ks)))])] if len(levels) == 1 else [float(x) for x in rng.choice(ks, size=min(3, len(ks)), replace=False)]
+                    ldt = "int"
+            yield dict(v=v, t=t, f=f, levels=levels, n_points=int(rng.choice([0, 0, 5, 12])), name=c["name"], near_vertex=bool(near), level_dtype=ldt, pres=c.get("pres"), vdtype=c.get("vdtype"))
 
     def correspond(self, drv, stats):
         fails = []
         for case in self.cases(self.seed, 40 if self.quick else 600):
             v, t, f, levels = case["v"], case["t"], case["f"], case["levels"]
             with core.quiet():
-                m = TriaMesh(v, t)
+                m = TriaMesh(*gen.arrays(case))
             segs = reference_segments(v, t, f, levels[0])
             single = is_single_open_curve(segs)
-            stats.case(core.mesh_key(v, t, f[:3].tolist(), levels), cls=["class:" + case["name"], "levels:%d" % len(levels), "single-curve:%s" % single, "near-vertex-level:%s" % case.get("near_vertex", False)],
+            stats.case(core.mesh_key(v, t, f[:3].tolist(), levels), cls=["class:" + case["name"], "levels:%d" % len(levels), "single-curve:%s" % single, "near-vertex-level:%s" % case.get("near_vertex", False), "level-dtype:" + case.get("level_dtype", "float")],
                        sample=dict(name=case["name"], nv=len(v), levels=levels, single_curve=single))
             r = wire.Reply(drv.ask("level_length %s %s %s %s" % (wire.verts(v), wire.elems(t), wire.rawfloats(f), wire.floats(levels))))
-            res = core.call(m.level_length, f, levels[0] if len(levels) == 1 else np.array(levels))
+            res = core.call(m.level_length, f, level_arg(case, levels))
             if res[0] != "ok" or r.status != "ok" or core.relerr(np.atleast_1d(res[1]), r.floats()) > 1e-9:
                 fails.append(core.Failure("correspondence", "level_length vs model", "%s: impl %s" % (case["name"], str(res)[:80]), case))
             if single:
                 npnt = case["n_points"]
                 rp = wire.Reply(drv.ask("level_path %s %s %s %s %d" % (wire.verts(v), wire.elems(t), wire.rawfloats(f), wire.fhex(levels[0]), npnt)))
                 if npnt:
-                    res = core.call(m.level_path, f, levels[0], False, npnt)
+                    res = core.call(m.level_path, f, level_arg(case, levels[:1]), False, npnt)
                 else:
-                    res = core.call(m.level_path, f, levels[0], True)
+                    res = core.call(m.level_path, f, level_arg(case, levels[:1]), True)
                 if res[0] != "ok" or rp.status != "ok":
                     fails.append(core.Failure("correspondence", "level_path vs model", "%s: impl %s model %s" % (case["name"], str(res)[:80], rp.raw[:40]), case))
                     continue
@@ -136,17 +170,17 @@ class Check(BaseCheck):
         v = np.asarray(case["v"], float); t = np.asarray(case["t"], dtype=np.int64); f = np.asarray(case["f"], float)
         levels = [float(x) for x in case["levels"]]
         with core.quiet():
-            m = TriaMesh(v, t)
+            m = TriaMesh(*gen.arrays(case))
         refs = []
         for lv in levels:
             segs = reference_segments(v, t, f, lv)
             refs.append(sum(np.linalg.norm(s[1][0] - s[2][0]) for s in segs))
-        res = core.call(m.level_length, f, levels[0] if len(levels) == 1 else np.array(levels))
+        res = core.call(m.level_length, f, level_arg(case, levels))
         if res[0] != "ok" or np.max(np.abs(np.atleast_1d(res[1]) - np.array(refs))) > 1e-9 * max(max(refs), 1e-12):
             return core.Violation("level_length", "level_length %s differs from the length of the level set of the interpolant %s" % (str(res)[:60], refs), case)
         segs = reference_segments(v, t, f, levels[0])
         if is_single_open_curve(segs):
-            res = core.call(m.level_path, f, levels[0], True)
+            res = core.call(m.level_path, f, level_arg(case, levels[:1]), True)
             if res[0] != "ok":
                 return core.Violation("level_path", "raised on a single open curve: %s" % (res[1:],), case)
             pts, ln, tri = res[1]
@@ -162,11 +196,10 @@ class Check(BaseCheck):
             for k in range(len(pts) - 1):
                 tr = t[tri[k]]
                 ctr = v[tr]
-                # both consecutive points in the reported triangle (within the merge slack)
+                # both consecutive points in the reported triangle; merging points closer than 1e-3 may leave a kept point up to
+                # (number of merged points) x 1e-3 away from it, an absolute distance
                 for p in (pts[k], pts[k + 1]):
-                    A = np.vstack([ctr.T, np.ones(3)])
-                    lam, *_ = np.linalg.lstsq(A, np.append(p, 1.0), rcond=None)
-                    if np.min(lam) < -2e-3 * (1 + merged) or np.linalg.norm(A @ lam - np.append(p, 1.0)) > 2e-3 * (1 + merged) * max(1, np.abs(v).max()):
+                    if tri_distance(p, ctr) > 1e-3 * (1 + merged) + 1e-9 * max(1, np.abs(v).max()):
                         return core.Violation("level_path", "consecutive points not in the reported common triangle", case)
             poly = np.sum(np.linalg.norm(np.diff(pts, axis=0), axis=1))
             if poly > ln + 1e-9 or poly < ln - (merged + 1) * 1e-3 - 1e-9:
